@@ -473,6 +473,12 @@ func (ex *executor) applyContract(st *state, c *Contract, key string, names []st
 	if i := strings.LastIndex(short, "/"); i >= 0 {
 		short = short[i+1:]
 	}
+	if rc := r.contract; rc != nil && ex == r && len(rc.AtCall[short]) > 0 {
+		for i, ac := range rc.AtCall[short] {
+			t := r.evalBoolClause(ac, st, r.entry, nil)
+			ex.addObligation(st, "atcall", fmt.Sprintf("at call %s: %s", short, clauseLabel(ac, i)), Implies(st.pc, t), pos)
+		}
+	}
 	for i, rq := range c.Requires {
 		t := ex.evalBoolEnv(rq, env)
 		if rc := r.contract; rc != nil && rc.NoSafety && strings.HasPrefix(rq.Label, "safe-") {
@@ -594,6 +600,29 @@ func (ex *executor) applyContract(st *state, c *Contract, key string, names []st
 	}
 	for _, u := range c.Unfolds {
 		ex.applyUnfoldEnv(u, env)
+	}
+	// acquisition of a mutex that guards shared locations (see `guards`)
+	if rc := r.contract; rc != nil && ex == r && len(rc.Guards) > 0 && len(args) > 0 && len(args[0].C) == 1 &&
+		(key == "sync.(*RWMutex).Lock" || key == "sync.(*Mutex).Lock" || key == "sync.(*RWMutex).RLock") {
+		for _, g := range rc.Guards {
+			genv := r.mkEnv(g.Mutex, st, r.entry, nil)
+			mv := genv.eval(g.Mutex.Expr)
+			if len(mv.C) != 1 || mv.C[0] != args[0].C[0] {
+				continue
+			}
+			for _, lc := range g.Locs {
+				for _, l := range r.evalLoc(lc, r.mkEnv(lc, st, r.entry, nil)) {
+					ex.havocLoc(st, l, st.alloc)
+				}
+			}
+			for _, y := range rc.Yields {
+				ex.assume(st, r.evalBoolClause(y, st, r.entry, nil))
+			}
+			r.abstracted["guarded locations may have changed while the mutex was not held: "+g.Mutex.Text]++
+			if key != "sync.(*RWMutex).RLock" {
+				st.atLock = st.clone()
+			}
+		}
 	}
 	return res
 }
@@ -930,7 +959,8 @@ func (ex *executor) execBuiltin(st *state, in ssa.Instruction, b *ssa.Builtin, c
 	case "recover":
 		return freshValue("recover", rt)
 	case "close":
-		ex.havocAll(st, "close(chan)")
+		// closing a channel never blocks: not a yield point; channel contents are not modelled
+		ex.root().abstracted["close(chan): channel state is not modelled"]++
 		return Value{T: rt}
 	case "clear":
 		panic(unsupported{"builtin clear"})
